@@ -262,9 +262,7 @@ func (fr *FnRun) analyzeLoops() {
 	sort.Slice(heads, func(i, j int) bool { return blockPos(heads[i]) < blockPos(heads[j]) })
 	for i, h := range heads {
 		fr.loops[h].ordinal = i
-		if fr.ctr != nil && fr.ctr.Loops != nil {
-			fr.loops[h].spec = fr.ctr.Loops[i]
-		}
+		fr.loops[h].spec = fr.ex.loopSpecFor(fr.ctr, i)
 	}
 }
 
@@ -890,4 +888,22 @@ func defBefore(a, b ssa.Value) bool {
 		return indexOf(ia.Block().Instrs, ia) < indexOf(ib.Block().Instrs, ib)
 	}
 	return ia.Block().Dominates(ib.Block())
+}
+
+// loopSpecFor picks the loop spec of the current build variant (tagged specs win).
+func (ex *Exec) loopSpecFor(ctr *Contract, ordinal int) *LoopSpec {
+	if ctr == nil {
+		return nil
+	}
+	variant := "default"
+	if ex != nil && ex.P != nil && strings.Contains(ex.P.Tags, "purego") {
+		variant = "purego"
+	}
+	if s, ok := ctr.VLoops[fmt.Sprintf("%d|%s", ordinal, variant)]; ok {
+		return s
+	}
+	if ctr.Loops != nil {
+		return ctr.Loops[ordinal]
+	}
+	return nil
 }
